@@ -570,6 +570,9 @@ func (e *IntervalEnv) At(v ssa.Value, b *ssa.BasicBlock) Interval {
 }
 
 // boundFromFact derives an interval for the value with polynomial pv from fact f when f.P == s*pv + d.
+// BoundFromFact is the exported form of boundFromFact.
+func BoundFromFact(f Cmp, pv *Poly) Interval { return boundFromFact(f, pv) }
+
 func boundFromFact(f Cmp, pv *Poly) Interval {
 	for _, s := range []int64{1, -1} {
 		d, ok := f.P.Sub(pv.MulC(s)).IsConst()
